@@ -492,7 +492,16 @@ def comparator_orientation(ctx, P, rule):
             if l1 and r2 and not l2 and not r1:
                 orient.setdefault("ab", []).append(t["line"])
             elif l2 and r1 and not l1 and not r2:
-                orient.setdefault("ba", []).append(t["line"])
+                # cmp(b, a) whose result is reversed is cmp(a, b): a later Ordering::reverse (also under Option::map) that is fed
+                # by this very call puts the arm back into the common orientation
+                tagname = "call:" + "::".join(callee_name(t).split("::")[-2:])
+                rev = False
+                for b2, t2 in f.calls():
+                    n2 = (t2.get("f") or callee_name(t2)).split("::")[-1]
+                    if b2 != bi and f.dominates(bi, b2) and (n2 == "reverse" or (n2 == "map" and any(a_[0] == "fn" and str(a_[1]).endswith("Ordering::reverse") for a_ in t2["args"]))):
+                        if any(x.endswith(nm) and x.startswith("call:") for x in fx.tags(t2["args"][0])):
+                            rev = True
+                orient.setdefault("ab" if rev else "ba", []).append(t["line"])
         if sum(len(v) for v in orient.values()) < 2:
             continue
         n += 1
